@@ -9,6 +9,28 @@ def run(ck, model_ok):
                'error; with callback False and an error naming the damaged piece and a file set containing the altered file; schedules replayed on the Coq model; '
                'non-trivial = distinct (scenario, seed)')
     pc.run_family(ck, model_ok, 'C02', [('verify', 1200, 80000)])
+    if model_ok:
+        # which files a content error names: model (coq/model/Corrupt.v) against torf.VerifyContentError
+        import torf
+        from common import Model
+        m = Model()
+        pend = []
+        rng = ck.rng
+        for _ in range(400 if ck.tier == 'quick' else 20000):
+            L = rng.choice([1, 2, 4, 16384])
+            sizes = [rng.choice([0, 0, 1, 2, 3, L - 1 if L > 1 else 1, L, L + 1, 2 * L, 3 * L + 1]) for _ in range(rng.randint(1, 6))]
+            npieces = max(1, -(-sum(sizes) // L))
+            i = rng.randrange(npieces + 1)
+            files = [(f'f{k}', sz) for k, sz in enumerate(sizes)]
+            want = [int(f[1:]) for f in torf.VerifyContentError('x', i, L, tuple(files)).files]
+            pend.append(((sizes, i, L), want, m.add(['verr.files', [[k, sz] for k, sz in enumerate(sizes)], i, L])))
+        out = m.run()
+        for case, want, j in pend:
+            ck.ties += 1
+            ck.case(('verr', case))
+            got = [int(x) for x in out[j][1]] if out[j][0] == 'ok' else out[j]
+            if got != want:
+                ck.fail('tie', 'content-error-files', {'sizes': case[0], 'piece': case[1], 'L': case[2]}, repr(got), repr(want), 'model and VerifyContentError name different files')
     ck.notes += ['SHA-1 collisions are not considered; content on disk is fixed during a run']
 
 
